@@ -349,6 +349,7 @@ package circuitbreaker
 // ---- C13: whole-set load. The grouping loop must cope with any element, including nil; the rebuild itself
 // (onRuleUpdate) is under a separate contract.
 //@ func onRuleUpdate(rawResRulesMap) err
+//@   requires[holds-the-update-lock]{C15} wlockcount(updateRuleMux) > 0
 //@   assumed
 //@   modifies heap
 //@ func LoadRules(rules) (changed, err)
@@ -378,6 +379,7 @@ package circuitbreaker
 
 //@ func onResourceRuleUpdate(res, rawResRules) err
 //@   props C13
+//@   requires[holds-the-update-lock]{C15} wlockcount(updateRuleMux) > 0
 //@   requires breakers != nil && breakerRules != nil && currentRules != nil && breakerRules != currentRules && ref(breakers) != ref(breakerRules) && ref(breakers) != ref(currentRules)
 //@   let n = len(rawResRules)
 //@   let pick = seqof(k, 0 <= k && k < len(rawResRules) && validRule(rawResRules[k]))
@@ -433,3 +435,9 @@ package circuitbreaker
 //@   assumed
 //@   ensures gCbClearN == old(gCbClearN) + 1
 //@   modifies gCbClearN
+
+// ---- C15: lock discipline of the rule tables (a load, store or use of the variable outside its lock is a data race)
+//@ guarded breakerRules by updateMux {C15}
+//@ guarded breakers by updateMux {C15}
+//@ guarded currentRules by updateRuleMux {C15}
+//@ lockorder updateRuleMux updateMux {C15}
